@@ -8,7 +8,10 @@ package token
 // file ("a freshly started server"), and a non-perturbing look at what an
 // instance honours right now.
 
-import "time"
+import (
+	"sort"
+	"time"
+)
 
 // VerifStoreState is a second, independent `state` on some file.
 type VerifStoreState struct{ s *state }
@@ -41,7 +44,26 @@ func (v *VerifStoreState) Peek() ([]*Stateful, string, error) {
 	s.mu.Lock()
 	defer s.mu.Unlock()
 	tk, sz, mt := s.tokens, s.fileSize, s.modTime
-	a, etag, err := s.list("", true)
+	// (not through s.list: its signature is nobody's interface; load(), the map and etag() are the state itself)
+	var a []*Stateful
+	etag := ""
+	_, err := s.load()
+	if err == nil {
+		a = make([]*Stateful, 0, len(s.tokens))
+		for _, t := range s.tokens {
+			a = append(a, t)
+		}
+		sort.Slice(a, func(i, j int) bool {
+			if a[j].Expires == nil {
+				return false
+			}
+			if a[i].Expires == nil {
+				return true
+			}
+			return (*a[i].Expires).Before(*a[j].Expires)
+		})
+		etag = s.etag()
+	}
 	s.tokens, s.fileSize, s.modTime = tk, sz, mt
 	return a, etag, err
 }
